@@ -6,9 +6,6 @@ pub struct ExWaker(std::task::Waker);
 pub uninterp spec fn w_woken(w: Waker) -> bool;
 pub assume_specification [Waker::wake] (w: Waker)
     ensures w_woken(w);
-/// ASSUMED: BorrowedFd::borrow_raw(fd) designates the descriptor fd
-pub assume_specification<'a> [BorrowedFd::<'a>::borrow_raw] (fd: RawFd) -> (r: BorrowedFd<'a>)
-    ensures crate::ext::fd_raw(&r) == fd as int;
 //@ endregion
 
 //@ item src/io.rs / struct IoDispatcher props=C16,C17
